@@ -587,6 +587,31 @@ Proof.
       destruct (a_z a <=? 0) eqn:Ez; [reflexivity|]. exfalso. apply H. apply existsb_exists. exists a. rewrite Ez. auto.
 Qed.
 
+
+(* ------------------------------------------------------------ construction order *)
+(* build_antennas on a base Detector subclass object: the iterated antennas are exactly the
+   ones constructed, one per antenna position, in the order of antenna_positions *)
+Lemma build_base_order ct o c m pos subs args kw t' lg :
+  is_base subs = true ->
+  build ct (Node o (KDet c) m pos subs) args kw = (t', None, lg) ->
+  flatten t' = pos /\
+  flat_map (fun x => match x with LAnt a _ _ _ => [a] | _ => [] end) lg = map a_id pos.
+Proof.
+  intros Hb. cbn [build]. destruct (pre_build ct o (KDet c) args kw) as [[[args1 kw1] log0]|e] eqn:Ep; [|discriminate].
+  rewrite Hb.
+  assert (Hlog0 : flat_map (fun x => match x with LAnt a _ _ _ => [a] | _ => [] end) log0 = []).
+  { unfold pre_build in Ep. destruct (c_build (ct c)) as [ps|].
+    - destruct (bind ps false args kw) as [[named extra]|]; inversion Ep; subst. reflexivity.
+    - inversion Ep; subst. reflexivity. }
+  destruct (match kw_lookup K_ANTENNA_CLASS kw1 with
+            | Some ac => Some (ac, args1, remove_key K_ANTENNA_CLASS kw1)
+            | None => match args1 with a :: r => Some (a, r, kw1) | [] => None end
+            end) as [[[ac args2] kw2]|]; [|discriminate].
+  intros H. inversion H; subst. split.
+  - simpl. clear. induction pos; simpl; [reflexivity | f_equal; assumption].
+  - rewrite flat_map_app', Hlog0. simpl. clear. induction pos; simpl; [reflexivity | f_equal; assumption].
+Qed.
+
 (* ------------------------------------------------------------ non-vacuity examples *)
 Definition ex_ct : cls_table := fun c =>
   match c with
